@@ -196,3 +196,22 @@ Definition with_base (vt : vartype) (base : option (vartype * poly)) (q : poly) 
   | None => q
   | Some (bvt, p) => padd (convert_base vt bvt p) q
   end.
+
+(* ---------- higherordercomposites.polymorph_response / penalty_satisfaction, code shaped ----------
+   child rows (values aligned with the child's variable order) -> returned rows:
+   penalty flag of every row = all products consistent; with discard_unsatisfied only flagged rows are
+   kept (and the flag column is all true); energies are recomputed on the polynomial from the FULL row;
+   the columns returned are vars_out (all of the child's, or the polynomial's) *)
+Definition row_sample (vars : list label) (vals : list Qc) : sample := sample_of_list (combine vars vals).
+
+Definition polymorph_rows (poly : hpoly) (cons : list cons3) (discard : bool)
+    (vars_child vars_out : list label) (rows : list (list Qc)) : list (list Qc * Qc * bool) :=
+  let sat := fun r => consistentb cons (row_sample vars_child r) in
+  let kept := if discard then filter sat rows else rows in
+  map (fun r => (map (row_sample vars_child r) vars_out,
+                 henergy poly (row_sample vars_child r),
+                 if discard then true else sat r)) kept.
+
+(* make_quadratic_cqm: the CQM - objective and one equality constraint u*v - p == 0 per product *)
+Definition cqm_feasibleb (cons : list cons3) (a : sample) : bool :=
+  forallb (fun c => Qc_eqb (energy (product_constraint_poly c) a) 0) cons.
